@@ -44,6 +44,7 @@ fn main() {
     }
     match args[1].as_str() {
         "agent" => bb::agent::main(&args[2..]),
+        "step" => bb::incr::step_main(&args[2..]),
         "corpus" => {
             // corpus <dir> <n>: write seed inputs for the fuzz targets (generated valid manifests, depfiles, paths)
             let dir = PathBuf::from(&args[2]);
